@@ -286,6 +286,12 @@ class ODF2MoinMoin(object):
             self.listStyles[name] = prop
 
 
+    def _elements(self, node):
+        """ The element children of a node: white space between block level
+            elements (an indented file) is not content """
+        return [el for el in node.childNodes
+                if el.nodeType == xml.dom.Node.ELEMENT_NODE]
+
     def _parse(self, data):
         """ Parses a package member; like the SAX based readers of the library,
             refuses a document type declaration that names an external subset """
@@ -414,7 +420,7 @@ class ODF2MoinMoin(object):
         props = self.listStyles.get(styleName, ListProperties())
 
         i = 0
-        for item in listElement.childNodes:
+        for item in self._elements(listElement):
             buffer.append(" "*indent)
             i += 1
             if props.ordered:
@@ -423,7 +429,7 @@ class ODF2MoinMoin(object):
                 buffer.append(" 1. ")
             else:
                 buffer.append(" * ")
-            subitems = [el for el in item.childNodes
+            subitems = [el for el in self._elements(item)
                           if el.tagName in ["text:p", "text:h", "text:list"]]
             for subitem in subitems:
                 if subitem.tagName == "text:list":
@@ -444,13 +450,13 @@ class ODF2MoinMoin(object):
         self.lastsegment = tableElement.tagName
         buffer = []
 
-        for item in tableElement.childNodes:
+        for item in self._elements(tableElement):
             self.lastsegment = item.tagName
             if item.tagName == "table:table-header-rows":
                 buffer.append(self.tableToString(item))
             if item.tagName == "table:table-row":
                 buffer.append("\n||")
-                for cell in item.childNodes:
+                for cell in self._elements(item):
                     buffer.append(self.inline_markup(cell))
                     buffer.append("||")
                     self.lastsegment = cell.tagName
@@ -462,11 +468,11 @@ class ODF2MoinMoin(object):
             FIXME: Result from second call differs from first call
         """
         body = self.content.getElementsByTagName("office:body")[0]
-        text = body.childNodes[0]
+        text = self._elements(body)[0]
 
         buffer = []
 
-        paragraphs = [el for el in text.childNodes
+        paragraphs = [el for el in self._elements(text)
                       if el.tagName in ["draw:page", "text:p", "text:h","text:section",
                                         "text:list", "table:table"]]
 
